@@ -11,7 +11,8 @@ a Python `bytes` guarantees).  Every statement quantifies over **all** 9-octet m
 3-octet masks and **all** 12-octet received words — nothing is bounded or sampled.
 
 Finite facts are kernel enumerations (`decide +kernel`, no axioms): the 65,536 products (four modules
-`Lemmas/RsMul{A,B,C,D}.lean`), 2·255 table facts (log∘exp, exp∘log, period 255), the factorisation
+`Lemmas/RsMul{A,B,C,D}.lean`, and once more in `Props/C11{a,b,c,d}.lean` so that the thorough tier
+re-executes them from clean), 2·255 table facts (log∘exp, exp∘log, period 255), the factorisation
 of the generator polynomial.  Everything else is structural: the octets form a field (`Rs.GF`), the
 loop of `generate` keeps  D(r)·r³ + p₂r² + p₁r + p₀ = 0  at the three roots of g, and a word with
 zero syndromes at α, α², α³ and at most three non-zero octets is zero (Vandermonde elimination).
@@ -85,10 +86,12 @@ theorem syndrome_spec (j : Nat) (w : Bytes) (bw : isBytes w = true) :
 g = X³ + 14X² + 56X + 64 = (X − α)(X − α²)(X − α³), and an octet string has zero syndromes at
 α¹, α², α³ exactly if its polynomial (octets as coefficients, highest degree first) is a multiple of g. -/
 theorem multiple_iff_syndromes (w : Bytes) (bw : isBytes w = true) :
+    genPoly = Polynomial.X ^ 3 + Polynomial.C (GF.ofNat (polyAt 2)) * Polynomial.X ^ 2
+                + Polynomial.C (GF.ofNat (polyAt 1)) * Polynomial.X + Polynomial.C (GF.ofNat (polyAt 0)) ∧
     genPoly = (Polynomial.X - Polynomial.C α) * (Polynomial.X - Polynomial.C (α ^ 2))
                 * (Polynomial.X - Polynomial.C (α ^ 3)) ∧
     (genPoly ∣ wordPoly w ↔ ∀ j, 1 ≤ j → j ≤ 3 → syndrome j w = 0) :=
-  ⟨genPoly_eq, by rw [← syndromesZero_iff_dvd w bw, syndromesZero_iff]⟩
+  ⟨rfl, genPoly_eq, by rw [← syndromesZero_iff_dvd w bw, syndromesZero_iff]⟩
 
 /-! ## the encoder -/
 
